@@ -19,7 +19,7 @@ pub fn vocabulary(reduced: bool) -> Vec<&'static str> {
     if !reduced {
         v.extend([
             "DEFINITIONS", "AUTOMATIC", "TAGS", "IMPORTS", "FROM", "NULL", "OCTET", "BIT", "STRING", "UTF8String", "IA5String", "NumericString", "PrintableString", "VisibleString", "UNIVERSAL", "APPLICATION", "PRIVATE", "TRUE", "FALSE", "WITH",
-            "COMPONENTS", "9223372036854775808", "18446744073709551616", "-9223372036854775809", "'AB'H", "'01'B", "\"x\"", "--", "/*", "*/", "H", "B", "1000", "-300", "65536",
+            "COMPONENTS", "9223372036854775808", "18446744073709551616", "-9223372036854775809", "'AB'H", "'01'B", "\"x\"", "--", "/*", "*/", "H", "B", "1000", "-300", "65536", "B", "C",
         ]);
     }
     v
